@@ -1,6 +1,7 @@
 package main
 
 import (
+	"encoding/json"
 	"fmt"
 	"os"
 	"path/filepath"
@@ -95,6 +96,15 @@ func writeEvidence(prop, tier string, seed int, cfg *Config, hs []*ssa.Function,
 		"platform linux/amd64",
 		"trusted: symgo's SSA interpreter and standard-library intrinsics (DESIGN.md §2), z3 " + cfg.Solver,
 		fmt.Sprintf("bounds: fuel %d SSA steps/path, ≤%d decisions/path, per-query solver time-out %d ms; any exhausted bound, unknown or unsupported construct makes the run inconclusive (exit 2), never passing", cfg.Fuel, cfg.MaxDecisions, cfg.TimeoutMs),
+	}
+	if b, err := os.ReadFile(filepath.Join(verifDir, "selftest", "report.json")); err == nil {
+		var rep struct {
+			Pass, Fail, Unsupported int
+			Tests                   int `json:"tests_and_subtests"`
+		}
+		if json.Unmarshal(b, &rep) == nil && rep.Tests > 0 {
+			assumptions = append(assumptions, fmt.Sprintf("engine validation (./selftest.sh, last recorded run): of goghcrow/yae's own %d tests and sub-tests executed inside the engine %d pass, %d fail, %d are unsupported (cgo time library, os/exec, uintptr round trips)", rep.Tests, rep.Pass, rep.Fail, rep.Unsupported))
+		}
 	}
 	assumptions = append(assumptions, notes...)
 	if len(samples) == 0 {
